@@ -29,6 +29,7 @@ RUST_OUT = os.path.join(VERIF, "harness", "gen", "typeid_universe.rs")
 SRC_LIB = "crates/stable_type_id/src/lib.rs"
 SRC_DERIVE = "crates/identifiable_derive_lib/src/lib.rs"
 FEATURES = {"smallvec", "bitvec"}          # harness is built with feature `extras`
+NSLICES = 8
 HARNESS_BIN_CRATE = "typeid"               # module_path!() root of harness/src/bin/typeid.rs
 
 
@@ -353,9 +354,9 @@ class ExprParser:
         return e
 
 
-def parse_impl(toks, cfg, out, what):
-    """toks[0] == impl.  Returns index after the item."""
-    i = 1
+def parse_impl(toks, start, cfg, out, what):
+    """toks[start] == impl.  Returns index after the item."""
+    i = start + 1
     generics = []
     if toks[i].s == "<":
         depth, j = 0, i
@@ -423,7 +424,7 @@ def parse_items(toks, out, macros, uses, what):
             i = k + 1
             continue
         if s == "impl":
-            i = parse_impl(toks, cfg, out, what); cfg = None; continue
+            i = parse_impl(toks, i, cfg, out, what); cfg = None; continue
         if s == "macro_rules" and toks[i + 1].s == "!":
             name = toks[i + 2].s
             k = match_close(toks, i + 3)
@@ -934,6 +935,9 @@ def build_universe(table):
     for k, ps in pairs.items():
         for a, b in ps:
             assert a in seen and b in seen and a != b, (k, U.sexpr(a), U.sexpr(b))
+    # listed in the order of the ids computed here (an untrusted hint for the kernel check, which
+    # then only has to compare neighbours); ties (= collisions) keep generation order
+    uni.sort(key=lambda t: U.pyid(t))
     return U, uni, fam_sizes, pairs
 
 
@@ -971,14 +975,31 @@ def emit_lean(table, U, uni, fam_sizes, pairs, derive_rule):
     L.append("]")
     L.append("")
     CH = 200
-    chunks = [uni[i:i + CH] for i in range(0, len(uni), CH)]
-    for n, ch in enumerate(chunks):
-        L.append(f"def uni{n} : List Ty := [")
-        L.append(",\n".join("  " + U.lean(t)[1:-1] for t in ch))
-        L.append("]")
+    # the universe, in id order, cut into NSLICES slices; slice k is checked by its own module
+    # (Lemmas/TypeIdSlice<k>.lean) so that lake proves them in parallel.  `sliceBound k` is the
+    # generator's claim "every key of slices < k is below this, every key of slice k is at or above".
+    per = (len(uni) + NSLICES - 1) // NSLICES if uni else 0
+    bounds = [0]
+    for k in range(NSLICES):
+        sl = uni[k * per:(k + 1) * per]
+        L.append(f"/-! slice {k}: {len(sl)} types -/")
+        chunks = [sl[i:i + CH] for i in range(0, len(sl), CH)]
+        for n, ch in enumerate(chunks):
+            L.append(f"def uni{k}_{n} : List Ty := [")
+            L.append(",\n".join("  " + U.lean(t)[1:-1] for t in ch))
+            L.append("]")
+        L.append(f"def slice{k} : List Ty := " + (" ++ ".join(f"uni{k}_{n}" for n in range(len(chunks))) or "[]"))
+        if sl:
+            i = U.pyid(sl[-1]); bounds.append(max(bounds[-1], i[0] * M + i[1] + 1))
+        else:
+            bounds.append(bounds[-1])
+        L.append("")
+    for k, b in enumerate(bounds):
+        L.append(f"def sliceBound{k} : Nat := {b}")
     L.append("")
-    L.append(f"/-- the universe: {len(uni)} type expressions. -/")
-    L.append("def universe : List Ty := " + " ++ ".join(f"uni{n}" for n in range(len(chunks))))
+    L.append(f"/-- the universe: {len(uni)} type expressions (listed in the order of the ids the generator computed). -/")
+    L.append("def typeUniverse : List Ty := " + " ++ ".join(f"slice{k}" for k in range(NSLICES)))
+    L.append(f"def universeSize : Nat := {len(uni)}")
     L.append("")
     for k, ps in pairs.items():
         pc = [ps[i:i + CH] for i in range(0, len(ps), CH)] or [[]]
